@@ -196,6 +196,14 @@ def impl(case):
         if not (t1 == t2 == t3 == out["apply"]):
             out["forms_same_effect"] = False
             out["text_document_counterexample"] = {"first": t1, "second": t2, "reloaded": t3, "value": out["apply"]}
+    # the same patch object applied again to the very object it has just patched in place, against fresh patch objects
+    def twice(make):
+        try:
+            d0 = deep(case["doc"])
+            return ["ok", SX.canon(make().apply(make().apply(d0)))]
+        except Exception as e:  # noqa: BLE001
+            return ["err", exc_name(e)]
+    out["reapply_same_object_ok"] = twice(lambda: p_doc) == twice(lambda: JSONPatch([P.op_to_dict(o) for o in case["ops"]], unicode_escape=case["mode"]))
     ra = rel_applicable(case)
     if ra is not None:
         try:
@@ -250,19 +258,19 @@ def decode(sx, case):
             m = d["model"]
             if m["build"][0] == "ok":
                 m.update({"forms_same_dicts": True, "patch_unchanged": True, "caller_list_unchanged": True,
-                          "apply_again": m["apply"], "results_independent": True, "forms_same_effect": True})
+                          "apply_again": m["apply"], "results_independent": True, "forms_same_effect": True, "reapply_same_object_ok": True})
             return d
     m = d["model"]
     if m["build"][0] == "ok":
         m.update({"forms_same_dicts": True, "patch_unchanged": True, "caller_list_unchanged": True,
-                  "apply_again": m["apply"], "results_independent": True, "forms_same_effect": True})
+                  "apply_again": m["apply"], "results_independent": True, "forms_same_effect": True, "reapply_same_object_ok": True})
     sp = dict(d["spec"])
     if sp and ra is not None:
         sp["addne_relation_ok"] = True
     if sp:
         sp.update({"names": [o[0] for o in case["ops"]], "forms_same_dicts": True, "patch_unchanged": True,
                    "caller_list_unchanged": True, "apply_again": sp.get("apply"), "results_independent": True,
-                   "forms_same_effect": True})
+                   "forms_same_effect": True, "reapply_same_object_ok": True})
     d["spec"] = sp
     return d
 
@@ -275,7 +283,7 @@ def project(case, res, dec=None):
     base = P.project(case, {"build": res["build"], "apply": res["apply"]}, dec)
     again = P.project(case, {"build": res["build"], "apply": res["apply_again"]}, dec)
     out = {"apply": base["apply"], "apply_again": again["apply"], "names": [o[0] for o in res["build"][1]]}
-    for k in ("forms_same_dicts", "patch_unchanged", "caller_list_unchanged", "results_independent", "forms_same_effect"):
+    for k in ("forms_same_dicts", "patch_unchanged", "caller_list_unchanged", "results_independent", "forms_same_effect", "reapply_same_object_ok"):
         out[k] = res[k]
     if "addne_relation_ok" in res:
         out["addne_relation_ok"] = res["addne_relation_ok"]
